@@ -5,7 +5,7 @@ import numpy as np
 from ..runner import Acc, HarnessError
 from ..refmodel import Fmt, MODES, ROUNDINGS, OVERFLOWS, quantize, quantize_code, dy_float
 from .. import alphabet as al
-from ..common import Fxp, fx, mk, codes, flags, fmt_of, Recorder, reset_class_state
+from ..common import carry, Fxp, fx, mk, codes, flags, fmt_of, Recorder, reset_class_state
 from ..explore import bfs, Disabled
 from .c01 import qval, in_core, _nw_list
 
@@ -57,31 +57,66 @@ def expected_log(eo, eu, ei):
     return sorted((['overflow'] if eo else []) + (['underflow'] if eu else []) + (['inaccuracy'] if ei else []) + ['change'])
 
 
-def single_write(acc, fmt, r, o, d, part):
+W_CARRIERS = ('decstr', 'nd0str', 'lstr', 'tstr', 'ndstr', 'int', 'np.float32', 'np.int16', 'arr1.int16', 'list', 'ntuple', 'arr0.float64')
+PRELUDES = ('flagged', 'flagged_reset', 'resized')
+
+
+def single_write(acc, fmt, r, o, d, part, carrier='float', late=None):
+    """one write of the value d (as `carrier`) into an existing object with a recording callback.
+    late: the callback is registered only after a prelude on the live object (earlier flag-raising writes [+ reset] / a resize) -
+    it must then be told about the judged write only"""
     rec = Recorder()
-    case = {'part': part, 'fmt': list(fmt), 'mode': [r, o], 'val': list(d)}
+    case = {'part': part, 'fmt': list(fmt), 'mode': [r, o], 'val': list(d), 'carrier': carrier, 'late': late}
+    v = dy_float(d) if carrier == 'float' else carry(d, carrier)
+    if v is None:
+        return
     ec, eo, eu, ei, _ = quantize(d, fmt, r, o)
     acc.evaluations += 1
     acc.transitions += 1
     if eo or eu or ei:
         acc.nontrivial += 1
     acc.outcome('flags=%d%d%d' % (eo, eu, ei))
+    acc.dim('write_carrier', carrier)
+    shape = np.shape(np.array(v)) if not isinstance(v, str) else ()
+    zero = np.zeros(shape) if shape else 0
+    sticky = (False, False, False)
     try:
-        x = mk(0, fmt, r, o, callbacks=[rec])
+        if late is None:
+            x = mk(zero, fmt, r, o, callbacks=[rec])
+        else:
+            x = mk(zero, fmt, r, o)
+            acc.dim('late_callback', late)
+            if late in ('flagged', 'flagged_reset'):
+                big = fmt.fvalue(fmt.hi) * 4 + 8.0 * 2.0 ** -fmt.n_frac
+                x.set_val(zero + big)                                   # overflow (+ inaccuracy)
+                x.set_val(zero - big - 0.25 * 2.0 ** -fmt.n_frac)       # underflow, inexact
+                sticky = flags(x)
+                if late == 'flagged_reset':
+                    x.reset()
+                    sticky = (False, False, False)
+            else:
+                x.resize(n_word=fmt.n_word + 3)
+                x.set_val(zero + 0.25 * 2.0 ** -fmt.n_frac)             # inexact
+                x.resize(n_word=fmt.n_word)
+                sticky = flags(x)
+            x.callbacks.append(rec)
+            acc.transitions += 3
         del rec.log[:]
-        x.set_val(dy_float(d))
+        x.set_val(v)
         fl = flags(x)
         log = sorted(rec.log)
     except Exception as e:
-        acc.violation('exception', case, 'fmt=%s %s/%s v=%d/2^%d raised %r' % (fmt.dtype, r, o, d[0], d[1], e), {'part': part})
+        acc.violation('exception', case, 'fmt=%s %s/%s v=%d/2^%d carrier=%s raised %r' % (fmt.dtype, r, o, d[0], d[1], carrier, e), {'part': part, 'carrier': carrier})
         return
     acc.states.add((fmt, fl))
-    if fl != (eo, eu, ei):
-        acc.violation('flags', case, 'fmt=%s %s/%s set_val(%d/2^%d): flags %s expected %s' % (fmt.dtype, r, o, d[0], d[1], fl, (eo, eu, ei)),
-                      {'part': part})
+    want = tuple(a or b for a, b in zip((eo, eu, ei), sticky))
+    if fl != want:
+        acc.violation('flags', case, 'fmt=%s %s/%s set_val(%d/2^%d as %s%s): flags %s expected %s' % (fmt.dtype, r, o, d[0], d[1], carrier,
+                      '' if late is None else ', after ' + late, fl, want), {'part': part, 'carrier': carrier, 'late': late})
     elif log != expected_log(eo, eu, ei):
-        acc.violation('callbacks', case, 'fmt=%s %s/%s set_val(%d/2^%d): callbacks %s expected %s'
-                      % (fmt.dtype, r, o, d[0], d[1], log, expected_log(eo, eu, ei)), {'part': part})
+        acc.violation('callbacks', case, 'fmt=%s %s/%s set_val(%d/2^%d as %s%s): callbacks %s expected %s'
+                      % (fmt.dtype, r, o, d[0], d[1], carrier, '' if late is None else ', callback registered after ' + late, log, expected_log(eo, eu, ei)),
+                      {'part': part, 'carrier': carrier, 'late': late})
     acc.sample(case, 1)
 
 
@@ -447,6 +482,12 @@ def run_shard(sh):
                 d = qval(k, fmt)
                 for (r, o) in MODES:
                     single_write(acc, fmt, r, o, d, 'a')
+                    if sh['nw'] <= 3 and nf in (-1, 0, 1, sh['nw']):
+                        for cr in W_CARRIERS:
+                            single_write(acc, fmt, r, o, d, 'a', cr)
+                        for late in PRELUDES:
+                            single_write(acc, fmt, r, o, d, 'a', 'float', late)
+                        single_write(acc, fmt, r, o, d, 'a', 'decstr', 'flagged')
     elif part == 'ag':
         nw = sh['nw']
         for signed in (True, False):
@@ -525,7 +566,7 @@ def replay(case):
     elif 'vals' in case:
         array_write(acc, Fmt(*case['fmt']), case['mode'][0], case['mode'][1], [tuple(d) for d in case['vals']], part, case.get('route', 'set_val'))
     else:
-        single_write(acc, Fmt(*case['fmt']), case['mode'][0], case['mode'][1], tuple(case['val']), part)
+        single_write(acc, Fmt(*case['fmt']), case['mode'][0], case['mode'][1], tuple(case['val']), part, case.get('carrier', 'float'), case.get('late'))
     return acc.violations
 
 
